@@ -4,6 +4,7 @@ Inline tokenizer for mistletoe.
 
 import html
 import re
+from html.entities import html5
 
 
 # replacement for html._charref which matches only entitydefs ending with ';',
@@ -12,6 +13,23 @@ _markdown_charref = re.compile(r'&(#[0-9]{1,7};'
                                r'|#[xX][0-9a-fA-F]{1,6};'
                                r'|[^\t\n\f <&#;]{1,32};)')
 _stdlib_charref = html._charref
+
+
+def _replace_charref(match):
+    # html.unescape() alone would also resolve the longest known prefix of a name ("&copyfoo;"),
+    # and outside of tokenize() names without a semicolon ("&copy"): CommonMark knows neither.
+    ref = match.group(1)
+    if ref.startswith('#') or ref in html5:
+        return html.unescape(match.group(0))
+    return match.group(0)
+
+
+def unescape(string):
+    """
+    Resolves the character references of the CommonMark spec: numeric references and
+    HTML5 entity names, each ending with ';'. Any other '&' is left as it is.
+    """
+    return _markdown_charref.sub(_replace_charref, string)
 
 
 def tokenize(string, token_types):
@@ -78,7 +96,7 @@ def make_tokens(tokens, start, end, string, fallback_token):
     prev_end = start
     for token in tokens:
         if token.start > prev_end:
-            t = fallback_token(html.unescape(string[prev_end:token.start]))
+            t = fallback_token(unescape(string[prev_end:token.start]))
             if t is not None:
                 result.append(t)
         t = token.make()
@@ -86,7 +104,7 @@ def make_tokens(tokens, start, end, string, fallback_token):
             result.append(t)
         prev_end = token.end
     if prev_end != end:
-        result.append(fallback_token(html.unescape(string[prev_end:end])))
+        result.append(fallback_token(unescape(string[prev_end:end])))
     return result
 
 
